@@ -1057,6 +1057,18 @@ impl TypedExpr {
                         }
                         circuit.push_panic_if(all_zero, PanicReason::DivByZero, meta);
                         if is_signed(ty) {
+                            // the smallest value divided by -1 is not representable:
+                            let mut x_is_min = x[0];
+                            for &w in x.iter().skip(1) {
+                                let not_w = circuit.push_not(w);
+                                x_is_min = circuit.push_and(x_is_min, not_w);
+                            }
+                            let mut y_is_minus_one = 1;
+                            for &w in y.iter() {
+                                y_is_minus_one = circuit.push_and(y_is_minus_one, w);
+                            }
+                            let overflow = circuit.push_and(x_is_min, y_is_minus_one);
+                            circuit.push_panic_if(overflow, PanicReason::Overflow, meta);
                             circuit.push_signed_division_circuit(&mut x, &mut y).0
                         } else {
                             circuit.push_unsigned_division_circuit(&x, &y).0
